@@ -84,7 +84,7 @@ fn shapes() -> Vec<Shape> {
         for r in legacy(SIG_RSA) {
             for d in legacy(SIG_DSA) {
                 for p in legacy(SIG_PGP) {
-                    for dg in ["none", "sha256-ok", "sha256-wrong", "sha256-prefix-wrong", "sha256-empty-wrong", "sha1-prefix-wrong", "sha1+md5-ok", "md5-wrong", "payload-wrong"] {
+                    for dg in ["none", "sha256-ok", "sha256-wrong", "sha256-prefix-wrong", "sha256-empty-wrong", "sha1-prefix-wrong", "sha1+md5-ok", "md5-wrong", "payload-wrong", "size-small", "longsize-small", "size-zero"] {
                         v.push(Shape { openpgp: o.clone(), openpgp_kind: ok, rsa: r.clone(), dsa: d.clone(), pgp: p.clone(), digests: dg });
                     }
                 }
@@ -136,6 +136,11 @@ fn synth(base: &Base, sh: &Shape) -> Vec<u8> {
         "sha256-prefix-wrong" => items.push((tag::SIG_SHA256, Val::str(&sha256[..40]))),
         "sha256-empty-wrong" => items.push((tag::SIG_SHA256, Val::str(""))),
         "sha1-prefix-wrong" => items.push((tag::SIG_SHA1, Val::str(&hex::encode(sha1::Sha1::digest(&base.hdr))[..39]))),
+        // size tags of the (unsigned) signature header that understate what follows: what a
+        // signature covers does not depend on them
+        "size-small" => items.push((tag::SIG_SIZE, Val::Int32(vec![base.hdr.len() as u32 + 1]))),
+        "longsize-small" => items.push((tag::SIG_LONGSIGSIZE, Val::Int64(vec![base.hdr.len() as u64 / 2]))),
+        "size-zero" => items.push((tag::SIG_SIZE, Val::Int32(vec![0]))),
         "sha1+md5-ok" | "md5-wrong" => {
             items.push((tag::SIG_SHA1, Val::str(&hex::encode(sha1::Sha1::digest(&base.hdr)))));
             let mut m = md5::Md5::new();
